@@ -548,7 +548,10 @@ impl Check for C04 {
         let src = if src == "vector-literal" { "vector-literal" } else if src.starts_with("vector") { "vector" } else { src };
         // a scalar held by a variable is the same source as the scalar written as a literal: if the literal spelling is accepted
         // through this target form and operator, rejecting the variable spelling is a violation, not an unsupported combination
-        supported.contains(&format!("{}|{}|{}|{}", sc, forms, op, src)) || (src == "scalar" && supported.contains(&format!("{}|{}|{}|scalar-literal", sc, forms, op)))
+        // pinned: combinations accepted on the tree this check was written against (c04_supported.txt) stay judged even when a change
+        // makes every assignment of that combination fail
+        let has = |k: String| supported.contains(&k) || include_str!("c04_supported.txt").lines().any(|l| l == k);
+        has(format!("{}|{}|{}|{}", sc, forms, op, src)) || (src == "scalar" && has(format!("{}|{}|{}|scalar-literal", sc, forms, op)))
       } else { true }
     });
     rep.cov("valid_rejections_on_unsupported_target_forms", json!(before - rep.out.failures.len()));
